@@ -2,6 +2,7 @@
 import os, random
 from verif import *
 import igz
+from defgen import DIST_BASE as defgen_DIST_BASE, DIST_EXTRA as defgen_DIST_EXTRA
 
 CPUS = ["base", "sse", "avx", "avx2", "avx512", "avx512g2"]
 
@@ -67,6 +68,38 @@ def gen(tier, rng):
         n = 250000 if tier == "quick" else 1200000
         inp = igz.corpus(rng, ["farcopy", "symmix", "symmix", "symmix"][ci % 4], n)
         add(api=["deflate_stateless", "deflate"][ci % 2], inp=inp, level=level, wrap=[1, 0, 3][ci % 3], lbuf=3, calls=[[n, n + 5000, 0, 1]], meta={"cls": "farcopy", "cpu": cpu})
+    # alphabets with gaps of exact sizes (levels 1-3 build a dynamic code per block and run-length encode the code lengths: zero runs of 3, 10/11,
+    # 138/139 and multiples are where the repeat codes 17 / 18 change over), in the literal and in the distance alphabet
+    k2 = 0
+    for g in (3, 10, 11, 12, 137, 138, 139, 140, 148, 149, 150):
+        for hi in (255 - g, 200):                      # gap directly below end-of-block (largest byte 255-g), or in the middle
+            if hi - g - 1 < 2: continue
+            low = [x for x in range(max(0, hi - g - 30), hi - g)] if hi != 255 - g else [x for x in range(max(0, 255 - g - 40), 256 - g)]
+            alpha = low + ([hi + 1, hi + 2] if hi != 255 - g and hi + 2 < 256 else [])
+            if hi != 255 - g: alpha = [x for x in alpha if not (hi - g < x <= hi)]
+            words = [[rng.choice(alpha) for _ in range(rng.randrange(3, 9))] for _ in range(40)]
+            inp = []
+            while len(inp) < 2500: inp += rng.choice(words)
+            inp += alpha                                  # every symbol of the alphabet occurs
+            for level in (1, 2, 3):
+                if tier == "quick" and (k2 + level) % 2 and g not in (11, 138, 139): continue
+                add(api=["deflate_stateless", "deflate"][k2 % 2], inp=inp, level=level, wrap=wraps[k2 % 5], lbuf=3, calls=[[len(inp), len(inp) + 600, [0, 1][k2 % 2], 1]], tail_ao=1 << 16, meta={"cls": "alphabet-gap-%d" % g, "cpu": CPUS[k2 % len(CPUS)]})
+            k2 += 1
+    # far matches whose source differs from the target one byte after a common prefix, while the data one byte CLOSER goes on matching (source
+    # KEY x CONT ... target KEY CONT), at the first and the last distance of every distance code from 24 bytes up: a match extended with a wrong
+    # distance base becomes an over-long match.  The filler has a 3-byte period, so it occupies three hash slots and leaves the KEY entries alone
+    hi_bytes = list(range(128, 256))
+    near = []
+    for ds in range(8, 30):
+        for d in sorted(set([defgen_DIST_BASE[ds], defgen_DIST_BASE[ds] + (1 << defgen_DIST_EXTRA[ds]) - 1])):
+            if d < 64: continue
+            key = [rng.choice(hi_bytes) for _ in range(12)]; cont = [rng.choice(hi_bytes) for _ in range(40)]
+            seg = key + [rng.choice(hi_bytes)] + cont
+            seg += [97 + (i % 3) for i in range(d - len(seg))]
+            near += seg + key + cont + [100 + (i % 3) for i in range(50)]
+    for ci, cpu in enumerate(("avx512g2", "avx512", "avx2", "base") if tier == "quick" else CPUS):
+        for level in (1, 2, 3):
+            add(api=["deflate_stateless", "deflate"][(ci + level) % 2], inp=near, level=level, wrap=[0, 1, 3][(ci + level) % 3], lbuf=3, calls=[[len(near), len(near) + 4000, 0, 1]], tail_ao=1 << 18, meta={"cls": "near-miss-far-matches", "cpu": cpu})
     # large inputs: stored-block splitting at 65535, 16-bit hash position wrap, internal buffer wrap
     big = [("random", 70000, 0), ("periodic", 200000, 2), ("text", 66000, 1), ("records", 36000 if tier == "quick" else 140000, 3)]
     if tier == "thorough":
